@@ -187,7 +187,9 @@ def r09c(ctx):
         if isinstance(n, ast.If) and "keep_tail" in ast.unparse(n.test):
             blk = n
     if blk is None:
-        raise AnalysisError("R09c: keep_tail block not found in Element.delete")
+        ctx.instance("R09c", f"{f.file}:{f.ident}", "keep_tail is honoured", ok=False)
+        ctx.report("R09c", f, f.node, "Element.delete ignores keep_tail", "Element.delete no longer has a branch that keeps the tail of the removed node")
+        return
     tailvar = None
     for s in blk.body:
         if isinstance(s, ast.Assign) and isinstance(s.targets[0], ast.Name) and "tail" in ast.unparse(s.value):
